@@ -214,5 +214,30 @@ __CPROVER_ensures(/*alias:the-array-data-becomes-exactly-the-ticks*/ (self->is_a
 __CPROVER_ensures(/*alias-without-array-data-raises-and-stores-nothing*/ (self->is_alias && !self->has_data) ==> (nix_exc == EXC_MissingAttr && gh_bt_setdata == 0 && gh_bt_setextent == 0 && gh_bt_write == 0))
 NIX_CANARY(RangeDimensionHDF5_ticks_set) __CPROVER_assigns(nix_exc, gh_bt_setdata, gh_bt_setdata_ticks_name, gh_bt_setextent, gh_bt_write, gh_bt_write_after_extent, gh_bt_opened, gh_bt_extent_rank, gh_bt_extent_d0, gh_bt_written, gh_bt_written_n)
 ;
+
+/* backend/hdf5/DimensionHDF5.cpp RangeDimensionHDF5::redirectGroup(): the group every accessor of a range dimension (ticks, label, unit) works on.
+   "An alias range dimension always mirrors the array itself ... its label and unit are the array's, in both directions": for an alias the accessors are
+   redirected to the FIRST child of the dimension's group - the hard link to the array (ASSUMED: createAliasRangeDimension puts exactly that link there) -
+   opened without creating anything; an ordinary dimension works on its own group. */
+typedef struct { int grp; } H5GroupR;
+typedef struct { int is_alias; H5GroupR group; } RangeDimensionHDF5r;
+#define DIM_GRP 21
+#define ARRAY_LINK_NAME 501
+#define ARRAY_GRP 33
+extern int gh_rd_opened, gh_rd_names_asked;
+static inline H5GroupR H5GroupR_default(void)
+{ H5GroupR g; g.grp = 0; return g; }
+static inline bool RangeDimensionHDF5r_alias(const RangeDimensionHDF5r *self)
+{ return self->is_alias != 0; }
+static inline nstring H5GroupR_objectName(const H5GroupR *g, ndsize_t index)
+{ __CPROVER_assert(g->grp == DIM_GRP && index == 0, "the first child of the dimension's own group"); gh_rd_names_asked++; nstring s; s.len = ARRAY_LINK_NAME; return s; }
+static inline H5GroupR H5GroupR_openGroup(const H5GroupR *g, nstring name, bool create)
+{ __CPROVER_assert(g->grp == DIM_GRP && name.len == ARRAY_LINK_NAME && !create, "the link to the array is opened, nothing is created"); gh_rd_opened++; H5GroupR r; r.grp = ARRAY_GRP; return r; }
+H5GroupR RangeDimensionHDF5r_redirectGroup(const RangeDimensionHDF5r *self)
+__CPROVER_requires(__CPROVER_is_fresh(self, sizeof(*self)) && (self->is_alias == 0 || self->is_alias == 1) && self->group.grp == DIM_GRP && gh_rd_opened == 0 && gh_rd_names_asked == 0 && nix_exc == EXC_NONE)
+__CPROVER_ensures(/*an-alias-works-on-the-array-an-ordinary-dimension-on-its-own-group*/ RV.grp == (self->is_alias ? ARRAY_GRP : DIM_GRP))
+__CPROVER_ensures(/*nothing-is-opened-for-an-ordinary-dimension*/ !self->is_alias ==> (gh_rd_opened == 0 && gh_rd_names_asked == 0))
+NIX_CANARY(RangeDimensionHDF5r_redirectGroup) __CPROVER_assigns(nix_exc, gh_rd_opened, gh_rd_names_asked)
+;
 #undef RV
 #endif
